@@ -212,8 +212,9 @@ def require_all_new(r, path, exceptions=(), include_self=True):
             raise ModelError('MergeError', f'node {p!r} requires that the destination exists', p)
 
 
-def merge(O, N, path=(), strict_domain=False):
-    """merge newer N onto older O (both R); returns the resulting node"""
+def merge(O, N, path=(), strict_domain=False, removed_above=frozenset()):
+    """merge newer N onto older O (both R); returns the resulting node.
+    removed_above: absolute paths which deleting nodes further up have removed in this very merge (they did exist: !notnew accepts them)"""
     if O is N:
         return O                 # a node moved over by a premerge operator meets itself
     if not (O.composed() and N.composed()):
@@ -234,7 +235,7 @@ def merge(O, N, path=(), strict_domain=False):
         filt(O, lambda rel, e: e.prio > nearest(N, rel).prio, removed=removed)
         if O.ch or N.prio < O.prio:
             raise OutOfDomain('a deleting mapping onto a list with protected elements: what the mapping keys mean then is not specified')
-        require_all_new(N, path, exceptions={path + r for r in removed} | {path})
+        require_all_new(N, path, exceptions={path + r for r in removed} | {path} | set(removed_above))
         N.md = {**O.md, **N.md}
         return N
     if O.kind == 'seq' and N.kind == 'map':
@@ -251,7 +252,7 @@ def merge(O, N, path=(), strict_domain=False):
     if N.dele:
         filt(O, lambda rel, e: e.prio > nearest(N, rel).prio, removed=removed)
         if not O.ch and N.prio >= O.prio:
-            require_all_new(N, path, exceptions={path + r for r in removed} | {path})
+            require_all_new(N, path, exceptions={path + r for r in removed} | {path} | set(removed_above))
             N.md = {**O.md, **N.md}
             return N
     gone = []        # entries removed by this merge: taken out after all keys of N have been matched (positions of a list stay put meanwhile)
@@ -261,7 +262,7 @@ def merge(O, N, path=(), strict_domain=False):
             if strict_domain and v.vdel:
                 raise OutOfDomain('value-less !del aimed at a key that does not exist')
             # (what the deleting N has just removed from O did exist: writing it again creates no path)
-            require_all_new(v, path + (k,), exceptions={path + r for r in removed})
+            require_all_new(v, path + (k,), exceptions={path + r for r in removed} | set(removed_above))
             if O.kind == 'map':
                 O.ch[k] = v
             else:
@@ -269,7 +270,7 @@ def merge(O, N, path=(), strict_domain=False):
             continue
         kk = k if O.kind == 'map' else (k if k >= 0 else len(O.ch) + k)
         was_composed = child.composed()
-        r = merge(child, v, path + (k,), strict_domain)
+        r = merge(child, v, path + (k,), strict_domain, frozenset({path + r for r in removed} | set(removed_above)))
         if was_composed:
             if r.falsy() and not (r.prio > v.prio) and v.xdel and v is not child:      # (a node emptied by !clear meets itself: it stays, empty)
                 gone.append(kk)
